@@ -2,8 +2,10 @@ package main
 
 import (
 	"fmt"
+	"os"
 	"strconv"
 	"strings"
+	"sync"
 
 	"github.com/cybergarage/go-redis/redis/glob"
 )
@@ -72,7 +74,14 @@ func modeGlob(args []string) {
 	alpha := unhx(args[0])
 	maxlen, _ := strconv.Atoi(args[1])
 	enumKeys := enumStrings(alpha, maxlen)
-	stdinLines(func(line string) {
+	// VERIF_GLOB_PAR=n: the lines are worked on by n goroutines at once (two Servers of one process, or a server and the
+	// embedding application, compile patterns at the same time); the results are printed in input order
+	par, _ := strconv.Atoi(os.Getenv("VERIF_GLOB_PAR"))
+	var lines []string
+	stdinLines(func(line string) { lines = append(lines, line) })
+	results := make([]string, len(lines))
+	one := func(li int) {
+		line := lines[li]
 		fields := strings.Fields(line)
 		if len(fields) == 0 {
 			return
@@ -88,16 +97,36 @@ func modeGlob(args []string) {
 		func() {
 			defer func() {
 				if r := recover(); r != nil {
-					fmt.Fprintf(out, "%s P - - %s\n", hx([]byte(p)), bitset(keys, func(k string) bool { return directGlob(p, k) }))
+					results[li] = fmt.Sprintf("%s P - - %s\n", hx([]byte(p)), bitset(keys, func(k string) bool { return directGlob(p, k) }))
 				}
 			}()
 			g, err := glob.Compile(p)
 			if err != nil {
-				fmt.Fprintf(out, "%s 0 - - %s\n", hx([]byte(p)), bitset(keys, func(k string) bool { return directGlob(p, k) }))
+				results[li] = fmt.Sprintf("%s 0 - - %s\n", hx([]byte(p)), bitset(keys, func(k string) bool { return directGlob(p, k) }))
 				return
 			}
-			fmt.Fprintf(out, "%s 1 %s %s %s\n", hx([]byte(p)), hx([]byte(g.String())),
+			results[li] = fmt.Sprintf("%s 1 %s %s %s\n", hx([]byte(p)), hx([]byte(g.String())),
 				bitset(keys, g.MatchString), bitset(keys, func(k string) bool { return directGlob(p, k) }))
 		}()
-	})
+	}
+	if par <= 1 {
+		for li := range lines {
+			one(li)
+		}
+	} else {
+		var wg sync.WaitGroup
+		for w := 0; w < par; w++ {
+			wg.Add(1)
+			go func(w int) {
+				defer wg.Done()
+				for li := w; li < len(lines); li += par {
+					one(li)
+				}
+			}(w)
+		}
+		wg.Wait()
+	}
+	for _, r := range results {
+		fmt.Fprint(out, r)
+	}
 }
